@@ -243,8 +243,18 @@ pub fn run_scenario(s: &Scenario) -> CaseResult {
                     }
                     let xml = vec![b' '; 600];
                     for i in 0..(*fdt_ids as u32 * scale) {
-                        // first of three symbols of an FDT instance that never completes
-                        rx.push(&fdt_pkt(tsi, 1 + i, &xml, 0, 0, 200, 600), now(t));
+                        match i % 3 {
+                            // first of three symbols of an FDT instance that never completes
+                            0 => rx.push(&fdt_pkt(tsi, 1 + i, &xml, 0, 0, 200, 600), now(t)),
+                            // an instance that is completely received but is not an FDT (fails to parse)
+                            1 => rx.push(&fdt_pkt(tsi, 1 + i, b"<FDT-Instance Expires=\"4000000000\"><File TOI=", 0, 0, 60000, 46), now(t)),
+                            // an instance that fails: first of three symbols, carrying the close-object flag
+                            _ => {
+                                let mut p = fdt_pkt(tsi, 1 + i, &xml, 0, 0, 200, 600);
+                                p[1] |= 0x01; // B flag of the LCT header
+                                rx.push(&p, now(t))
+                            }
+                        };
                         t += 1;
                     }
                 }
@@ -262,7 +272,8 @@ pub fn run_scenario(s: &Scenario) -> CaseResult {
             if left1 != 0 || left4 != 0 {
                 return Err(format!("after the object timeout ({} ms) elapsed and cleanup() ran, nb_objects() is still {} (scale 1) / {} (scale 4)", timeout_ms, left1, left4));
             }
-            if r4 > r1 + SLACK && r4 > 2 * r1 {
+            // (what is left after cleanup is per session, not per past object or instance: 24 KiB of slack)
+            if r4 > r1 + (24 << 10) && r4 > 2 * r1 {
                 return Err(format!(
                     "memory held after timeouts + cleanup scales with past traffic: {} bytes after the scenario, {} bytes after 4x the scenario ({} stalled objects, {} unfinished FDT instance ids, {} sessions, session timeout {})",
                     r1, r4, stalled, fdt_ids, sessions, session_timeout
@@ -396,7 +407,7 @@ pub fn run(eng: &mut Engine) {
     eng.generated(
         PartCfg::new(
             "scenarios",
-            "traffic that keeps objects undecodable: (cache) packets of an FDT-only object whose FDT never comes, N then 3N more packets; (blocks) first block withheld while later blocks complete; (errors) many failing objects vs max_objects_error after every push; (cleanup) stalled objects + FDT instance ids that never complete + idle sessions, residual heap after timeouts+cleanup at scale 1 vs scale 4; (busy) stalled objects in a session that keeps receiving complete FDT instances for other objects (and optionally another object's packets) more often than the 20-40 ms object timeout, cleanup after each, for 2x the timeout + 30 ms; (periodic) idle sessions with a 20-40 ms session timeout while cleanup() is called every quarter of it; limits 4 KiB..300 KiB, timeouts 2-8 ms; non-trivial = the configured limit was reached / stalled state existed; distinct by scenario",
+            "traffic that keeps objects undecodable: (cache) packets of an FDT-only object whose FDT never comes, N then 3N more packets; (blocks) first block withheld while later blocks complete; (errors) many failing objects vs max_objects_error after every push; (cleanup) stalled objects + FDT instance ids that never complete, fail to parse or are cut short by a close-object flag + idle sessions, residual heap after timeouts+cleanup at scale 1 vs scale 4; (busy) stalled objects in a session that keeps receiving complete FDT instances for other objects (and optionally another object's packets) more often than the 20-40 ms object timeout, cleanup after each, for 2x the timeout + 30 ms; (periodic) idle sessions with a 20-40 ms session timeout while cleanup() is called every quarter of it; limits 4 KiB..300 KiB, timeouts 2-8 ms; non-trivial = the configured limit was reached / stalled state existed; distinct by scenario",
             tier.pick(8000, 120_000),
         )
         .limit_s(120),
